@@ -1,3 +1,4 @@
+import copy
 import enum
 import io
 import logging
@@ -194,7 +195,9 @@ class LasHeader:
 
         if version is None and point_format is None:
             version = LasHeader.DEFAULT_VERSION
-            point_format = LasHeader.DEFAULT_POINT_FORMAT
+            # a copy: extra dimensions added to this header must not
+            # show up in every header created after it
+            point_format = copy.deepcopy(LasHeader.DEFAULT_POINT_FORMAT)
         elif version is not None and point_format is None:
             point_format = PointFormat(dims.min_point_format_for_version(str(version)))
         elif version is None and point_format is not None:
